@@ -452,8 +452,8 @@ def main():
                 log("  harness %s: %s" % (short(hid), "; ".join(descs)))
                 exit_code = 1
             else:
-                pointer_level = all(
-                    re.search(r"dereference failure|pointer|out of bounds|double free|deallocat|offset", d) for d in descs
+                pointer_level = any(
+                    re.search(r"dereference failure|pointer|out of bounds|double free|deallocat|offset|allocated size matches its layout|rust_dealloc|rust_realloc|same allocation|unallocated memory|free argument", d, re.I) for d in descs
                 )
                 if pointer_level and ran:
                     log("VIOLATION property=%s replay=%s" % (pid, path))
